@@ -51,6 +51,9 @@ def check(ck: Checker) -> None:
 
     _r4.failures_always_raised(ck, "C10.state")
     _r4.relink_skip_only_dirs(ck, "C10.linkkind")
+    from . import round11 as _r11
+
+    _r11.link_destination_is_link_text(ck, "C10.linkkind")
 
 
 
